@@ -51,7 +51,11 @@ def expected(N, entry):
 
 def s1_jobs(tier, harness, quick_n5_max_edges=None, with_routes=True):
     """The standard S1 job list.  harness(E, ctx, aux, desc)."""
+    mk = s1_job_maker(harness)
+    return _s1_jobs(tier, mk, quick_n5_max_edges, with_routes)
 
+
+def s1_job_maker(harness):
     def mk(name, N, entry=None, max_edges=None, skeleton=None, budget=900.0, required=True, exp=None, dag=False, routes=None, prefix="b",
            features=None, counters=None):
         def space():
@@ -87,6 +91,10 @@ def s1_jobs(tier, harness, quick_n5_max_edges=None, with_routes=True):
             required=required,
         )
 
+    return mk
+
+
+def _s1_jobs(tier, mk, quick_n5_max_edges, with_routes):
     jobs = [
         mk("S1-N3-all-entries", 3, None, exp=expected(3, None)),
         mk("S1-N4-all-entries", 4, None, exp=expected(4, None)),
@@ -94,6 +102,8 @@ def s1_jobs(tier, harness, quick_n5_max_edges=None, with_routes=True):
     jobs.append(mk("F6dag-N6-entry-b0-forward-edges", 6, 0, dag=True, budget=900.0))
     # names that sort AFTER every generated name (the library sorts block names in several places)
     jobs.append(mk("S1-N4-all-entries-z-names", 4, None, exp=expected(4, None), prefix="z"))
+    # numeric strings: what the source front end and the repository's own YAML fixtures use as block names
+    jobs.append(mk("S1-N4-all-entries-numeric-names", 4, None, exp=expected(4, None), prefix=""))
     # histories: the graph is written to a dictionary / YAML and read back between two stages
     RELOADS = ["reload@1", "reload@2", "yreload@2"]
     BOTH = ["direct", "reload@2"] if with_routes else None
